@@ -147,17 +147,50 @@ def classify(req, so, mo, pre):
     return None
 
 
+LEAN_CLASSES = ('S1_remove_link_to_dir', 'S2_mkdir_m_on_file', 'S3_readlink_abs_non_link', 'S4_remove_all_file', 'S5_is_dir_skips_abs', 'S6_metadata_follows_link',
+                'empty_lines_noop', 'S8_move_links', 'S10_cwd_removed')
+
+
+def run_model(hists):
+    """the same histories on the Lean Stdfs model (driver session `newstd`)"""
+    W = [['newstd' + h[0][3:]] + h[1:] for h in hists]
+    chunks = [W[i::vlib.NCPU] for i in range(vlib.NCPU)]
+
+    def one(c):
+        lines = [l for h in c for l in h]
+        b = subprocess.run([vlib.DRIVER], input=('\n'.join(lines) + '\n').encode(), capture_output=True)
+        got = b.stdout.decode('utf8', 'replace').split('\n')
+        out, k = [], 0
+        for h in c:
+            out.append(got[k:k + len(h)])
+            k += len(h)
+        return out
+    res = [None] * len(hists)
+    with ThreadPoolExecutor(max_workers=vlib.NCPU) as ex:
+        for k, r in enumerate(ex.map(one, chunks)):
+            for j, x in enumerate(r):
+                res[k + j * vlib.NCPU] = x
+    return res
+
+
+def same_result(a, b):
+    """success-or-failure and, on success, the returned value (error kinds are not part of the property)"""
+    return (a.startswith('ok') == b.startswith('ok')) and (not a.startswith('ok') or a == b)
+
+
 def run(tier, seed, replay):
     prop = 'C02'
     V = vlib.Verdict(prop, tier, seed)
     rng = random.Random(seed)
-    assumptions = ['POSIX semantics of this kernel / filesystem behind std::fs (observed, not modelled)', 'effective uid 0 only: permission enforcement is not exercised (Memfs enforces none)', 'umask 022',
-                   'error kinds are not compared (the property compares success-or-failure and returned values)']
+    assumptions = ['POSIX semantics of this kernel / filesystem behind std::fs as transcribed in Rivia/Model/Posix.lean (validated by this run on every step, not proved)',
+                   'effective uid 0 only: permission enforcement is not exercised (Memfs enforces none)', 'umask 022',
+                   'error kinds are not compared (the property compares success-or-failure and returned values)',
+                   'owners are not compared (the observer sees uid 0, Memfs reports 1000)']
     okh, logh, dth = vlib.build_harness()
     if not okh:
         V.violation('build', dict(kind='build', log=logh), no_input=True)
         return V.finish('proof', dict(obligations=1, discharged=0, checker_cmd='cargo build', trusted_base=[], explanation='build failed'), assumptions)
-    okl, logl, dtl = vlib.build_lean(['Rivia.Props.C02'])
+    okl, logl, dtl = vlib.build_lean(['driver', 'Rivia.Props.C02'])
     proof_broken = []
     if okl:
         A = vlib.audit('Rivia.Props.C02')
@@ -166,18 +199,24 @@ def run(tier, seed, replay):
     else:
         A = dict(ok=False, obligations=1, discharged=0, problems=[], axioms={}, theorems=[])
         proof_broken.append('lake build Rivia.Props.C02 failed: ' + logl[-1000:])
+    known_all = vlib.load_known(prop)
+    known = {f['id']: f for f in known_all if f.get('status') == 'open'}
     if replay:
         H = [json.load(open(replay))['requests']]
+        geninfo = dict(kind='replay')
     else:
         H, geninfo = gen(tier, rng)
+        # witnesses of the known findings (open and fixed) run first, as a corpus
+        H = [f['witness_history'] for f in known_all if f.get('witness_history')] + H
     S = run_mode('stdfs', H)
     M = run_mode('memfs', H)
-    known = {f['id']: f for f in vlib.load_known(prop) if f.get('status') == 'open'}
-    evaluations = judged = 0
-    new_fail, hits, samples, seen = [], {}, [], set()
-    for h, s, m in zip(H, S, M):
+    D = run_model(H) if okl else [[''] * len(h) for h in H]
+    evaluations = judged = corr_steps = 0
+    new_fail, corr_fail, hits, samples, seen, cls_hist = [], [], {}, [], set(), {}
+    for h, s, m, d in zip(H, S, M, D):
         pre = 'cwd=2f|2f:d:755:-:'
-        for i, (req, x, y) in enumerate(zip(h, s, m)):
+        model_alive = True
+        for i, (req, x, y, z) in enumerate(zip(h, s, m, d)):
             if req.startswith('new'):
                 pre = 'cwd=2f|2f:d:755:-:'
                 continue
@@ -187,39 +226,69 @@ def run(tier, seed, replay):
             so, sd = x.split(' ## ', 1)
             mo = y.split(' ## ')[0]
             md = strip_abs(vlib.abs_of_dump(y))
-            if not in_domain(pre, req):
+            f = z.split('\t')
+            lean_cls = f[2] if len(f) > 2 else '?'
+            if not in_domain(pre, req) or lean_cls in ('dom_links', 'dom_arg'):
                 break
             t0 = req.split(' ')
             if t0[0] in ('remove', 'remove_all', 'move_p', 'copy', 'symlink', 'chmod', 'mkfile_m', 'write_all', 'append_all', 'mkfile') and any(
                     a.startswith('x') and lexical(parse(pre)[0], bytes.fromhex(a[1:]).decode('utf8', 'replace')) == '2f' for a in t0[1:3]):
                 break      # the sandbox root stands in for '/': mutating it is outside the sandbox
+            # (1) correspondence: the real Stdfs against the Lean model of Stdfs over the kernel model
+            if model_alive and ' ## ' in f[0]:
+                zo, zd = f[0].split(' ## ', 1)
+                zd = strip_abs(zd)
+                corr_steps += 1
+                if zo == 'err Other' and lean_cls == 'uncovered':
+                    model_alive = False           # not modelled (entry / entries / handles / self-nested copy)
+                elif not (same_result(so, zo) and sd == zd):
+                    if t0[0] in ('copy', 'copy_b') and vlib._copy_into_itself(req, 'x ## cwd ' + parse(pre)[0]):
+                        model_alive = False
+                    else:
+                        corr_fail.append(dict(history=h[:i + 1], stdfs=x[:1500], model=(zo + ' ## ' + zd)[:1500], cls=lean_cls))
+                        model_alive = False
+            # (2) the property: the two real backends against each other
             judged += 1
             seen.add(hash((pre, req)))
-            same_out = (so.startswith('ok') == mo.startswith('ok')) and (not so.startswith('ok') or so == mo)
-            # permission bits of symlinks are not observable portably; compare everything else
+            same_out = same_result(so, mo)
             same_tree = sd == md
             if not (same_out and same_tree):
-                cls = classify(req, so, mo, pre)
+                cls = lean_cls if lean_cls in LEAN_CLASSES else classify(req, so, mo, pre)
+                cls_hist[cls or 'unclassified'] = cls_hist.get(cls or 'unclassified', 0) + 1
                 if cls and cls in known:
                     hits[cls] = hits.get(cls, 0) + 1
                 else:
-                    new_fail.append(dict(history=h[:i + 1], why=('results differ' if not same_out else 'resulting trees differ') + (f' (class {cls} is not an open known finding)' if cls else ''),
+                    in_thm = lean_cls == '-'
+                    new_fail.append(dict(history=h[:i + 1], why=('results differ' if not same_out else 'resulting trees differ') + (f' (class {cls} is not an open known finding)' if cls else '') +
+                                         (' — inside the domain of C02_backends_agree_partial: the model or the C01 refinement no longer describes the code' if in_thm else ''),
                                          stdfs=x[:1500], memfs=mo + ' ## ' + md[:1500], cls=cls))
                 break
             pre = sd
         if len(samples) < 4 and len(h) > 3:
             samples.append([vlib.pretty_req(r) for r in h[:8]])
+    # every open known finding is replayed through its witness (first histories): it must have been hit
     for fid, f in known.items():
         if fid in hits:
             V.known(fid, f['what_fails'])
+        else:
+            V.notes.append(f'known finding {fid} was not reproduced by this run (witness no longer diverges, or it lies outside the generated histories)')
     for i, nf in enumerate(new_fail[:3]):
         V.violation(f'fail{i}', dict(kind='property-violated', requests=nf['history'], pretty=[vlib.pretty_req(r) for r in nf['history']], why=nf['why'], stdfs=nf['stdfs'], memfs=nf['memfs'], cls=nf['cls']))
-    if not new_fail and proof_broken:
+    if not new_fail and corr_fail:
+        c = corr_fail[0]
+        V.violation('correspondence', dict(kind='correspondence-broken', what='the real Stdfs and the Lean model of Stdfs (over the kernel model) disagree; no (pre-state, call) on which the two backends differ outside the known classes was found',
+                                           correspondence='stdfs harness (sandbox + std::fs observer) vs Rivia.Model.Stdfs.step (Rivia.Props.C02)', requests=c['history'], pretty=[vlib.pretty_req(r) for r in c['history']],
+                                           stdfs=c['stdfs'], model=c['model'], cls=c['cls'], mismatching_histories=len(corr_fail)), no_input=True)
+    if not new_fail and not corr_fail and proof_broken:
         V.violation('proof', dict(kind='proof-broken', theorems=proof_broken), no_input=True)
     cov = dict(obligations=A['obligations'], discharged=A['discharged'], checker_cmd='cd /verif/lean && lake build Rivia.Props.C02 && lake env lean ../work/audit/C02.lean',
-               trusted_base=['sandbox harness: Stdfs in a fresh directory, independent observer using std::fs only', 'Lean kernel', 'axioms: ' + ', '.join(sorted({a for v in A['axioms'].values() for a in v}) or ['none'])],
+               trusted_base=['hand transcription Rust->Lean of src/sys/fs/stdfs/{mod,entry}.rs (Rivia/Model/Stdfs.lean) and the kernel model Rivia/Model/Posix.lean, both checked by the correspondence run against the real Stdfs in a sandbox directory',
+                             'sandbox harness: independent observer using std::fs only (lstat / readlink / read)', 'Lean kernel', 'axioms: ' + ', '.join(sorted({a for v in A['axioms'].values() for a in v}) or ['none'])],
                theorems=A['theorems'], axioms=A['axioms'], proof_problems=proof_broken, evaluations=evaluations, distinct_nontrivial=len(seen), judged_steps=judged,
-               rule='random histories over the shared alphabet run on both backends; after every call: success-or-failure, returned value and the observed tree (names, kinds, bytes, link targets, permission bits) must agree, '
-                    'as long as the pre-state and the arguments are inside the domain of the property (no intermediate symlink component, every symlink resolves to an existing non-link); distinct = distinct (pre-state, call) pairs',
-               samples=samples, known_class_hits=hits, spec_failures_new=len(new_fail), exhaustive=False, histories=len(H))
+               correspondence_steps=corr_steps, model_disagreements=len(corr_fail),
+               rule='random histories over the shared alphabet (plus the witnesses of all recorded findings) run on the real Stdfs (sandbox), on the real Memfs and on the Lean Stdfs model; after every call: '
+                    '(1) real Stdfs vs Lean Stdfs model: success-or-failure, returned value, observed tree; (2) real Stdfs vs real Memfs: the same three (names, kinds, bytes, link targets, permission bits), '
+                    'as long as the pre-state and the arguments are inside the domain of the property (no intermediate symlink component, every symlink resolves to an existing non-link); '
+                    'divergences are classified by the decidable domain of the theorem (driver column) and must be open known findings; distinct = distinct (pre-state, call) pairs',
+               samples=samples, known_class_hits=hits, divergence_classes=cls_hist, spec_failures_new=len(new_fail), exhaustive=False, histories=len(H), generator=geninfo, notes=V.notes)
     return V.finish('proof', cov, assumptions)
